@@ -890,5 +890,6 @@ func init() {
 		e.c03Forward(s, tf, "TokenLimiter.AllowN", "reserveN", "allowNFwd")
 		e.c03Forward(s, tf, "TokenLimiter.AllowNCtx", "reserveN", "allowNCtxFwd")
 		e.c03RescueLimiter(s, tf)
+		e.c03LuaToks("core/limit/tokenscript.lua", "tokenLuaToks")
 	})
 }
